@@ -66,6 +66,12 @@ def branch(term, concrete, kind="br"):
     return concrete
 
 
+def define(term):
+    """Definitional extension: a constraint over *fresh* variables that is satisfiable for every value of the old ones
+    (e.g. the decimal digits of an integer).  Part of the path condition, never flipped by the explorer."""
+    CTX.path.append((term, True, "def"))
+
+
 def pin(eq_term, op):
     """Concretise: constrain the path to the current model value of something; counted per operation."""
     CTX.pins[op] += 1
